@@ -60,7 +60,32 @@ def gen_params(rng, algo):
     return st
 
 
-def gen_scenario(rng, kind, nsteps, newton=False, algos=None):
+THIRD = 1 / 3
+
+
+def directed_params(algo):
+    """every documented special value / boundary / default of a parameter, crossed with non-default values
+    of the other parameters (a branch taken only at alpha == 1/2, beta == 1/4 ... is hit exactly)."""
+    out = []
+    if algo == "parabolic":
+        for dt, th in ((0.25, 0.5), (1.0, 1.0), (0.375, 0.25), (0.5, 0.5), (0.125, 1.0)):
+            out.append({"algo": algo, "dt": dt, "alpha": th})
+        return out
+    bgs = [(0.25, 0.5), (0.375, 0.75), (0.125, 0.5), (0.25, 1.0), (0.5, 0.5)]       # defaults first, then non-defaults
+    alphas = {"hht_newmark": [0.0, THIRD, 0.25, 0.125]}.get(algo, [0.5, 0.0, 0.25, 0.75])   # 0.5 is the default
+    dts = [0.25, 1.0, 0.375]
+    n = 0
+    for al in alphas:
+        for be, ga in bgs:
+            # keep the list short: all alphas with default and one non-default (beta, gamma); all (beta, gamma) at alpha 1/2 and 0
+            if not (be, ga) in bgs[:2] and al not in alphas[:2]:
+                continue
+            out.append({"algo": algo, "dt": dts[n % 3], "beta": be, "gamma": ga, "alpha": al})
+            n += 1
+    return out
+
+
+def gen_scenario(rng, kind, nsteps, newton=False, algos=None, steps=None):
     mesh = rng.choice(MESHES)
     nn = len(mesh["coords"])
     sc = {"kind": kind, "coords": mesh["coords"], "tris": mesh["tris"], "thickness": rng.choice([1.0, 0.5, 2.0]),
@@ -104,8 +129,8 @@ def gen_scenario(rng, kind, nsteps, newton=False, algos=None):
     if newton:
         pool = [x for x in pool if x != "euler_explicit"]
     sc["steps"] = []
-    for _ in range(nsteps):
-        st = gen_params(rng, rng.choice(pool))
+    for i in range(nsteps if steps is None else len(steps)):
+        st = gen_params(rng, rng.choice(pool)) if steps is None else dict(steps[i])
         st["neumann_scale"] = rng.choice([1.0, 0.5, -1.0, 2.0, 0.0])
         sc["steps"].append(st)
     if kind == "elastic" and sc["rayleigh"][0] == 0.0 and any(s["algo"] == "parabolic" for s in sc["steps"]):
@@ -197,11 +222,12 @@ def run_impl(ctx, scenarios, timeout=900):
 
 
 def one_step_scenario(sc, res, n):
-    """the scenario restricted to step n (previous state taken from the run): a minimal replay"""
+    """the scenario cut after step n, from the original initial state.  (Not reduced to the single step: a
+    violation may depend on the steps before it, e.g. a value cached from a previous parameter set.)"""
     s = dict(sc)
-    s["state"] = res["steps"][n]["prev"]
-    s["steps"] = [sc["steps"][n]]
+    s["steps"] = sc["steps"][:n + 1]
     s.pop("energy", None)
+    s.pop("restart", None)
     return s
 
 
@@ -215,13 +241,18 @@ def judge(ctx, T, sc, res, tag):
         return
     msgs = []
     bad = c05_replay.check_steps(sc, res["steps"], out=msgs.append)
+    if sc.get("info_only"):
+        ctx.cov["info:" + tag] = {"restart_messages": [b for b in bad if "restart:" in b][:2] or "continuation identical",
+                                  "note": "not judged by C05; proposed fix proposed_fixes/C05-elastic-parabolic-save-restore-speed.diff"}
+        bad = [b for b in bad if "restart:" not in b]
     if bad:
         # the documented relations fail on the implementation's own output: a genuine violation
         n = int(bad[0].split()[1])
         algo = sc["steps"][n]["algo"]
-        kind = "update" if "update relation" in bad[0] else "eom" if "K u_t" in bad[0] else "energy" if "energy" in bad[0] else "coefs"
+        kind = "restart" if "restart:" in bad[0] else "update" if "update relation" in bad[0] else "eom" if "K u_t" in bad[0] \
+            else "energy" if "energy" in bad[0] else "coefs"
         ctx.violation("impl:%s:%s%s" % (algo, kind, ":newton" if sc.get("newton") else ""), bad[0],
-                      replay_of(one_step_scenario(sc, res, n) if kind != "energy" else sc), found_input=True)
+                      replay_of(one_step_scenario(sc, res, n) if kind not in ("energy", "restart") else sc), found_input=True)
     for n, (st, rec) in enumerate(zip(sc["steps"], res["steps"])):
         algo = st["algo"]
         key = "%s:%s:%s" % (sc["kind"], algo, "newton" if sc.get("newton") else "direct")
@@ -296,6 +327,30 @@ def correspondence(ctx, T):
     for a in HYP:
         scs.append(("direct-%s" % a, gen_scenario(rng, "elastic", 2, algos=[a])))
     scs.append(("direct-parabolic-elastic", gen_scenario(rng, "elastic", 2, algos=["parabolic"])))
+    # directed: documented special values / defaults / boundaries of each parameter x non-default others
+    for a in ALGOS:
+        pts = directed_params(a)
+        kind = "thermal" if a == "parabolic" else "elastic"
+        scs.append(("directed-%s" % a, gen_scenario(rng, kind, 0, steps=pts)))
+        if a != "euler_explicit":
+            scs.append(("directed-newton-%s" % a, gen_scenario(rng, "elastic", 0, newton=True, steps=pts[:4])))
+    # Save_Iter after every step, Set_Iter(k), continue: the continuation must be the originally computed next
+    # iterate and the state read back the state saved -- every algorithm (parabolic on Thermal), plus a
+    # sequence switching between the hyperbolic algorithms
+    for a in ALGOS:
+        kind = "thermal" if a == "parabolic" else "elastic"
+        pts = [gen_params(rng, a) for _ in range(4)]
+        sc = gen_scenario(rng, kind, 0, steps=pts)
+        sc["restart"] = {"k": rng.randint(0, 2)}
+        scs.append(("restart-%s" % a, sc))
+    sc = gen_scenario(rng, "elastic", 0, steps=[gen_params(rng, rng.choice(HYP)) for _ in range(5)])
+    sc["restart"] = {"k": rng.randint(0, 3)}
+    scs.append(("restart-switching", sc))
+    # information only (C15's subject, see docs/C05.md): Elastic under the parabolic scheme does not save `speed`
+    sc = gen_scenario(rng, "elastic", 0, steps=[gen_params(rng, "parabolic") for _ in range(3)])
+    sc["restart"] = {"k": 0}
+    sc["info_only"] = True
+    scs.append(("info-restart-parabolic-on-elastic", sc))
     for i in range(6 if quick else 40):
         scs.append(("mixed-%d" % i, gen_scenario(rng, "elastic", 4 if quick else 6)))
     for i in range(3 if quick else 12):
@@ -334,6 +389,7 @@ def correspondence(ctx, T):
         if drift > 1e-9 * max(1.0, abs(E[1])):
             sq["energy"] = {"from_step": 1}
             ctx.violation("impl:newmark:energy", "average-acceleration Newmark changes the energy by %.3e after the first step" % drift, replay_of(sq), True)
+    ctx.cov["directed_points_per_algo"] = {a: len(directed_params(a)) for a in ALGOS}
     ctx.sample({"scenario": scs[7][0], "steps": scs[7][1]["steps"][:2]})
 
 
@@ -428,8 +484,9 @@ def search(ctx, T, algos, tries=200):
     found = []
     for algo in algos:
         hit = None
-        for _ in range(tries):
-            P = gen_params(rng, algo)
+        directed = directed_params(algo)
+        for t in range(tries + len(directed)):
+            P = dict(directed[t]) if t < len(directed) else gen_params(rng, algo)
             env = {"K": [[rnd_fr(rng, 1, 9, 2), rnd_fr(rng, -3, 3, 2)], [Fr(0), rnd_fr(rng, 1, 9, 2)]],
                    "M": [[rnd_fr(rng, 1, 5, 2), rnd_fr(rng, -1, 1, 4)], [Fr(0), rnd_fr(rng, 1, 5, 2)]],
                    "C": [[rnd_fr(rng, 0, 3, 2), rnd_fr(rng, -1, 1, 2)], [rnd_fr(rng, -1, 1, 2), rnd_fr(rng, 0, 3, 2)]]}
